@@ -396,7 +396,7 @@ def body(ck: common.Check):
     rng = ck.rng
     quick = ck.tier == "quick"
     cases = [("directed", c) for c in directed_cases(rng, quick)]
-    for stream, n in (("inside", 130 if quick else 4000), ("outside", 90 if quick else 2500), ("remove", 50 if quick else 1200)):
+    for stream, n in (("inside", 130 if quick else 3000), ("outside", 90 if quick else 1800), ("remove", 50 if quick else 800)):
         cases += [(stream, gen_case(rng, stream)) for _ in range(n)]
     answers = LeanDriver("C14").batch([lean_request(c) for _, c in cases])
     for a in answers:
